@@ -8,7 +8,7 @@ open BV.Hex BV.Aead BV.C19
 /-- InitiateV2Handshake + CompleteHandshake(true): with a 64-byte remote key in front of the input
 the initiator derives the session from v2_ecdh and continues with `completeAfterKeys` -/
 theorem initiator_keys (P : Prims) (K : Kdf) (magic : Nat) (rnd : List UInt8) (gLen : Nat)
-    (decoys : List Nat) (priv : Nat) (ell rnd' : List UInt8)
+    (decoys : List (List UInt8)) (priv : Nat) (ell rnd' : List UInt8)
     (hc : Ellswift.create rnd = some (priv, ell, rnd')) (hg : gLen ≤ 4095)
     (ellB tail : List UInt8) (hB : ellB.length = 64) (secret : List UInt8)
     (hs : Ellswift.v2Ecdh priv ellB ell true = some secret) :
@@ -26,7 +26,7 @@ version message (some byte among the first 16 differs from the v1 prefix, and by
 "version\0\0\0\0\0"), the responder derives the session from v2_ecdh and continues with
 `completeAfterKeys` -/
 theorem responder_keys (P : Prims) (K : Kdf) (magic : Nat) (rnd : List UInt8) (gLen : Nat)
-    (decoys : List Nat) (priv : Nat) (ell rnd' : List UInt8)
+    (decoys : List (List UInt8)) (priv : Nat) (ell rnd' : List UInt8)
     (hc : Ellswift.create rnd = some (priv, ell, rnd')) (hg : gLen ≤ 4095)
     (ellA tail : List UInt8) (hA : ellA.length = 64) (i : Nat)
     (hv1 : v1Mismatch (v1Prefix magic) (ellA ++ tail) 16 0 = .ok i)
@@ -57,7 +57,7 @@ theorem v1Mismatch_all (v1 inp : List UInt8) : ∀ (fuel i : Nat),
 /-- a stream that starts with the 16-byte v1 version-message prefix of this network makes the
 responder answer ErrUseV1Protocol without writing a single byte -/
 theorem responder_v1 (P : Prims) (K : Kdf) (magic : Nat) (rnd : List UInt8) (gLen : Nat)
-    (decoys : List Nat) (tail : List UInt8) :
+    (decoys : List (List UInt8)) (tail : List UInt8) :
     (responder P K magic rnd gLen decoys (v1Prefix magic ++ tail)).status = .useV1 ∧
     (responder P K magic rnd gLen decoys (v1Prefix magic ++ tail)).written = [] := by
   have hl : (v1Prefix magic).length = 16 := by
@@ -74,7 +74,7 @@ theorem responder_v1 (P : Prims) (K : Kdf) (magic : Nat) (rnd : List UInt8) (gLe
 
 /-- an admission that admits both phases is transparent -/
 theorem responderAdm_admits (P : Prims) (K : Kdf) (magic : Nat) (rnd : List UInt8) (gLen : Nat)
-    (decoys : List Nat) (inp : List UInt8) (adm : Nat) (h1 : adm ≠ 1) (h2 : adm ≠ 2) :
+    (decoys : List (List UInt8)) (inp : List UInt8) (adm : Nat) (h1 : adm ≠ 1) (h2 : adm ≠ 2) :
     (responderAdm P K magic rnd gLen decoys inp adm).1 = responder P K magic rnd gLen decoys inp := by
   unfold responderAdm
   cases hv : v1Mismatch (v1Prefix magic) inp 16 0 with
@@ -98,7 +98,7 @@ theorem responderAdm_admits (P : Prims) (K : Kdf) (magic : Nat) (rnd : List UInt
 
 /-- the v1 path never consults the admission and writes nothing -/
 theorem responderAdm_v1 (P : Prims) (K : Kdf) (magic : Nat) (rnd : List UInt8) (gLen : Nat)
-    (decoys : List Nat) (tail : List UInt8) (adm : Nat) :
+    (decoys : List (List UInt8)) (tail : List UInt8) (adm : Nat) :
     responderAdm P K magic rnd gLen decoys (v1Prefix magic ++ tail) adm = (⟨[], .useV1, none, []⟩, 0, 0) := by
   have hl : (v1Prefix magic).length = 16 := by simp [v1Prefix, natLE_length]
   have h := v1Mismatch_all (v1Prefix magic) (v1Prefix magic ++ tail) 16 0 (by
@@ -111,7 +111,7 @@ theorem responderAdm_v1 (P : Prims) (K : Kdf) (magic : Nat) (rnd : List UInt8) (
 
 /-- a rejected first phase: nothing is written (no key is generated), one Acquire, no release -/
 theorem responderAdm_reject_first (P : Prims) (K : Kdf) (magic : Nat) (rnd : List UInt8) (gLen : Nat)
-    (decoys : List Nat) (inp : List UInt8) (i : Nat)
+    (decoys : List (List UInt8)) (inp : List UInt8) (i : Nat)
     (hv : v1Mismatch (v1Prefix magic) inp 16 0 = .ok i) :
     responderAdm P K magic rnd gLen decoys inp 1 = (⟨[], .admission, none, inp⟩, 1, 0) := by
   unfold responderAdm
@@ -120,7 +120,7 @@ theorem responderAdm_reject_first (P : Prims) (K : Kdf) (magic : Nat) (rnd : Lis
 /-- leases are balanced: never more releases than acquisitions, and every acquired lease has been
 released unless an Acquire itself failed -/
 theorem responderAdm_balanced (P : Prims) (K : Kdf) (magic : Nat) (rnd : List UInt8) (gLen : Nat)
-    (decoys : List Nat) (inp : List UInt8) (adm : Nat) :
+    (decoys : List (List UInt8)) (inp : List UInt8) (adm : Nat) :
     (responderAdm P K magic rnd gLen decoys inp adm).2.2 ≤ (responderAdm P K magic rnd gLen decoys inp adm).2.1 ∧
     ((responderAdm P K magic rnd gLen decoys inp adm).2.1 = (responderAdm P K magic rnd gLen decoys inp adm).2.2 ∨
       ((responderAdm P K magic rnd gLen decoys inp adm).1.status = .admission ∧
@@ -165,7 +165,7 @@ theorem responderPrefix_v1 (magic : Nat) (tail : List UInt8) (stopped : Bool) :
 /-- downgrade signalling: an initiator that reads NOTHING is told to retry with v1; one that reads
 some but fewer than 64 bytes gets a plain I/O error -/
 theorem initiator_short (P : Prims) (K : Kdf) (magic : Nat) (rnd : List UInt8) (gLen : Nat)
-    (decoys : List Nat) (priv : Nat) (ell rnd' : List UInt8)
+    (decoys : List (List UInt8)) (priv : Nat) (ell rnd' : List UInt8)
     (hc : Ellswift.create rnd = some (priv, ell, rnd')) (hg : gLen ≤ 4095)
     (inp : List UInt8) (hl : inp.length < 64) :
     (initiator P K magic rnd gLen decoys inp).status = (if inp.length = 0 then .downgradeV1 else .io) ∧
